@@ -145,6 +145,9 @@ func (in *Interp) unop(fr *frame, instr *ssa.UnOp, x value) value {
 	case token.ARROW:
 		panic(unsupported{"channel receive"})
 	case token.MUL:
+		if sp, ok := x.(*symPtr); ok {
+			return in.loadSym(sp, deref(instr.X.Type()))
+		}
 		p := in.derefPtr(x, "load")
 		return load(deref(instr.X.Type()), p)
 	case token.NOT:
